@@ -11,7 +11,9 @@ RULE = ("generated AKAI images (mono files and L/R pairs, multi-sector and fragm
         "random offsets; raw and 2352-wrapped. The export of the truncated image must terminate; every file it REPORTS must be a well-formed WAV whose PCM "
         "is a prefix of the full image's PCM for the same path; a file whose header sectors, directory sectors and data sectors all lie before the cut "
         "must be exported complete. Function level: the operational view model (Stream.v) on truncated base content against the real classes: a read "
-        "returns the full-content bytes, a prefix of them, or SectorReadError. Non-trivial = cut inside the used part of the image; distinct = (image, cut)")
+        "returns the full-content bytes, a prefix of them, or SectorReadError; the block-loop models (Trunc.v drain / drain_many) against the real "
+        "PassthroughTranscoder / PipelineTranscoder over the same towers on cut files (one shared file object), whose drained PCM must be a whole-frame "
+        "prefix of the complete file's, complete when all sectors lie before the cut. Non-trivial = cut inside the used part of the image; distinct = (image, cut)")
 
 SECTOR = 8192
 
@@ -221,7 +223,148 @@ def w_views(pid, tier, seed, job):
     return ctx.dump()
 
 
+def w_drain(pid, tier, seed, job):
+    """the transcoder's block loops over streams on a cut base file (Trunc.v drain / drain_many) vs the real
+    PassthroughTranscoder / PipelineTranscoder; and, on the real classes alone: the drained PCM of the cut file is a
+    prefix of the drained PCM of the complete file, equal when every base byte of the windows lies below the cut"""
+    import io
+    import views as VW
+    from smpl_extract.transcoder import PassthroughTranscoder, make_transcoder
+    from smpl_extract.data_streams import DataStream, StreamEncoding, Endianess
+    ctx = F.Ctx(pid, tier, seed)
+    rng = random.Random(job)
+    B = ("base",)
+
+    def drained(tr):
+        r = M.impl_res(lambda: b"".join(bytes(x) for x in tr))
+        return r
+
+    # (a) PassthroughTranscoder, small towers, every cut
+    content = bytes((i * 7 + 1) % 256 for i in range(48))
+    specs = [("off", 30, 5, B), ("chain", 4, (5, 1, 7, 2), B), ("off", 10, 2, ("chain", 4, (5, 1, 7), B)),
+             ("wrap", 11, ("chain", 4, (8, 2, 0), B)), ("sect", 9, 3, ("off", 20, 2, ("wrap", 30, B))),
+             ("chain", 3, (2, 0, 1), ("chain", 4, (5, 1, 7), B))]
+    combos = [(4, 2), (5, 2), (6, 3), (3, 1), (7, 7), (2, 4)]
+    metas = []
+    for spec in specs:
+        for bs, fs in combos:
+            for cut in range(0, 49):
+                if tier == "quick" and (cut + bs + job) % 3:
+                    continue
+                metas.append((spec, bs, fs, cut))
+    mod = M.call_batch("drain_view", [[VW.enc_view(spec, cut), list(content[:cut]), 0, bs, fs] for spec, bs, fs, cut in metas])
+    fullcache = {}
+    for (spec, bs, fs, cut), mv in zip(metas, mod):
+        def run(data):
+            st = VW.build(spec, io.BytesIO(data))
+            return drained(PassthroughTranscoder(DataStream(st, StreamEncoding(Endianess.LITTLE, fs, 1, True)), buffer_size=bs))
+        got = run(content[:cut])
+        key = (spec, bs, fs)
+        if key not in fullcache:
+            fullcache[key] = run(content)
+        full = fullcache[key]
+        case = {"drain_job": job, "view": spec, "block": bs, "frame": fs, "cut": cut}
+        ctx.count("drain_cut", (repr(spec), bs, fs, cut), nontrivial=True)
+        mr = M.res(mv)
+        ctx.agree("drain_view(truncated)", case, got, ("ok", bytes(mr[1])) if mr[0] == "ok" else mr)
+        ctx.require("draining a stream of the cut file terminates normally and yields a prefix of what the complete file yields", case,
+                    got[0] == "ok" and full[0] == "ok" and full[1][:len(got[1])] == got[1] and len(got[1]) % fs == 0, (got, full))
+    # (a') the same over the 2352-byte-sector wrapper, whose size is recomputed from the cut file
+    raw = bytes((i * 11 + (i >> 7) + 5) % 256 for i in range(5 * 2352))
+    metas = []
+    for secs in [(1, 3, 4), (7, 0, 2, 9), (9, 8)]:
+        spec = ("chain", 1024, secs, ("mdf", B))
+        for bs in (1024, 4096, 700):
+            cuts = sorted({0, 1, 2351, len(raw)} | {k * 2352 + d for k in range(1, 6) for d in (-1, 0, 1, 16, 1040, 2064)} | {rng.randrange(len(raw)) for _ in range(3)})
+            for cut in cuts:
+                if 0 <= cut <= len(raw) and not (tier == "quick" and (cut + bs + job) % 2):
+                    metas.append((spec, bs, 2, cut))
+    mod = M.call_batch("drain_view", [[VW.enc_view(spec, cut), list(raw[:cut]), 0, bs, fs] for spec, bs, fs, cut in metas])
+    for (spec, bs, fs, cut), mv in zip(metas, mod):
+        def run(data):
+            st = VW.build(spec, io.BytesIO(data))
+            return drained(PassthroughTranscoder(DataStream(st, StreamEncoding(Endianess.LITTLE, fs, 1, True)), buffer_size=bs))
+        got = run(raw[:cut])
+        key = (spec, bs, fs)
+        if key not in fullcache:
+            fullcache[key] = run(raw)
+        full = fullcache[key]
+        case = {"drain_job": job, "view": spec, "block": bs, "frame": fs, "cut": cut, "wrapped2352": True}
+        ctx.count("drain_mdf_cut", (repr(spec), bs, fs, cut), nontrivial=True)
+        mr = M.res(mv)
+        ctx.agree("drain_view(truncated)", case, got, ("ok", bytes(mr[1])) if mr[0] == "ok" else mr)
+        if cut < 2352:
+            # no whole raw sector left: MdfStream gets size 0, and a StreamWrapper of size 0 does not clip reads while its seeks clamp to 0
+            # (every read then starts at the wrapper's position 0).  No directory can be read through such a wrapper, so no such tower is
+            # ever built by an export; the model agrees with the classes here too (relation above), the prefix claim needs one whole sector
+            # (Props/C15.v stacked_mdf_blocks_prefix, ex_stacked_needs_whole_sector)
+            continue
+        ctx.require("draining a stream of the cut 2352-wrapped file terminates normally and yields a prefix of what the complete file yields", case,
+                    got[0] == "ok" and full[0] == "ok" and full[1][:len(got[1])] == got[1] and len(got[1]) % fs == 0,
+                    (got[0], full[0], len(got[1]) if got[0] == "ok" else got[1]))
+        if all((s // 2 + 1) * 2352 <= cut for s in spec[2]):
+            ctx.require("a chained file whose raw sectors all lie before the cut is drained complete (2352-wrapped)", case, got == full, (got[0], full[0]))
+    # (b) make_transcoder (default block size) over 512-byte-sector chains: mono pairs (LE / BE), one stereo stream
+    SL, NS = 512, 40
+    big = bytes((i * 13 + (i >> 8) * 5 + 3) % 256 for i in range(SL * NS))
+    metas = []
+    for _ in range(6 if tier == "quick" else 40):
+        n = rng.choice([3, 8, 9, 17])
+        secs = rng.sample(range(NS), 2 * n)
+        a = ("chain", SL, tuple(secs[:n]), B)
+        b = ("chain", SL, tuple(secs[n:]), B)
+        if rng.random() < 0.3:
+            a = ("off", n * SL - 6, 4, a)
+            b = ("off", n * SL - 6, 2, b)
+        kind = rng.choice(["pairLE", "pairBE", "stereo", "monoBE"])
+        need = sorted(set(secs if kind.startswith("pair") else secs[:n]))
+        cuts = {0, 1, len(big)} | {s * SL + d for s in need for d in (0, 1, SL - 1, SL)} | {rng.randrange(len(big)) for _ in range(4)}
+        cuts = sorted(c for c in cuts if 0 <= c <= len(big))
+        if tier == "quick":
+            cuts = rng.sample(cuts, min(len(cuts), 12))
+        for c in cuts:
+            metas.append((kind, a, b, need, c))
+
+    def streams_of(kind, a, b):
+        if kind == "pairLE":
+            return [(a, 2, 1, 0), (b, 2, 1, 0)], 2
+        if kind == "pairBE":
+            return [(a, 2, 1, 1), (b, 2, 1, 1)], 2
+        if kind == "stereo":
+            return [(a, 2, 2, 0)], 2
+        return [(a, 2, 1, 1)], 1
+    margs = []
+    for kind, a, b, need, c in metas:
+        sts, _ = streams_of(kind, a, b)
+        margs.append([4096, [[VW.enc_view(sp, c), 0, w, ch, bg] for sp, w, ch, bg in sts], list(big[:c])])
+    mod = M.call_batch("drain_streams", margs)
+    fullcache = {}
+    for (kind, a, b, need, c), mv in zip(metas, mod):
+        sts, dch = streams_of(kind, a, b)
+
+        def run(data):
+            base = io.BytesIO(data)          # ONE file object under all streams, as in an export
+            dss = [DataStream(VW.build(sp, base), StreamEncoding(Endianess.BIG if bg else Endianess.LITTLE, w, ch, True)) for sp, w, ch, bg in sts]
+            return drained(make_transcoder(dss, StreamEncoding(Endianess.LITTLE, 2, dch, True)))
+        got = run(big[:c])
+        key = (kind, a, b)
+        if key not in fullcache:
+            fullcache[key] = run(big)
+        full = fullcache[key]
+        case = {"drain_job": job, "kind": kind, "a": a, "b": b, "cut": c}
+        ctx.count("drain_streams_cut", (kind, repr(a), repr(b), c), nontrivial=c < (max(need) + 1) * SL)
+        mr = M.res(mv)
+        ctx.agree("drain_streams(truncated)", case, got, ("ok", bytes(mr[1])) if mr[0] == "ok" else mr)
+        ok = got[0] == "ok" and full[0] == "ok" and full[1][:len(got[1])] == got[1] and len(got[1]) % (2 * dch) == 0
+        ctx.require("draining the streams of the cut file terminates normally and yields a whole-frame prefix of what the complete file yields", case, ok,
+                    (got[0], len(got[1]) if got[0] == "ok" else got[1], full[0]))
+        if all((s + 1) * SL <= c for s in need):
+            ctx.require("streams whose sectors all lie before the cut are drained complete", case, got == full, (got[0], full[0]))
+    return ctx.dump()
+
+
 def run(ctx):
+    F.pmap(ctx, w_drain, [ctx.seed * 7 + i for i in range(3 if ctx.quick else 12)])
     F.pmap(ctx, w_views, [ctx.seed * 3 + i for i in range(4 if ctx.quick else 16)])
     F.pmap(ctx, w_image, [ctx.seed * 131 + i for i in range(12 if ctx.quick else 96)])
     F.pmap(ctx, w_cdda, [ctx.seed * 977 + i for i in range(8 if ctx.quick else 48)])
@@ -230,7 +373,9 @@ def run(ctx):
 def replay(ctx, case):
     c = case["case"]
     sub = F.Ctx(ctx.pid, ctx.tier, ctx.seed)
-    if c.get("cdda"):
+    if "drain_job" in c:
+        sub.merge(w_drain(ctx.pid, ctx.tier, ctx.seed, c["drain_job"]))
+    elif c.get("cdda"):
         sub.merge(w_cdda(ctx.pid, ctx.tier, ctx.seed, c["seed"]))
     elif "seed" in c:
         sub.merge(w_image(ctx.pid, ctx.tier, ctx.seed, c["seed"]))
